@@ -2,6 +2,11 @@
 //! ndjson traces that TLC validates against the specifications in /verif/spec.
 pub mod util;
 mod window;
+mod codec;
+mod beacon;
+mod keys;
+mod dissect;
+mod cfgmerge;
 
 use std::os::raw::{c_char, c_int};
 use std::panic::{catch_unwind, AssertUnwindSafe};
@@ -13,6 +18,11 @@ fn dispatch(args: &[String]) -> i32 {
         ("ping", _) => serde_json::json!({"pong": true}),
         ("window", "sched") => window::run_sched(a(3), a(4)),
         ("window", "random") => window::run_random(n(3), n(4), a(5)),
+        ("codec", _) => codec::run(&args[2..]),
+        ("beacon", _) => beacon::run(&args[2..]),
+        ("keys", _) => keys::run(&args[2..]),
+        ("dissect", _) => dissect::run(&args[2..]),
+        ("cfgmerge", _) => cfgmerge::run(&args[2..]),
         _ => {
             eprintln!("usage: vpnharness <driver> <mode> ...");
             return 2;
